@@ -233,6 +233,14 @@ def inline_temporaries(fn: ast.AST, new_names: Set[str]) -> int:
                                             ast.DictComp, ast.SetComp)) and len(loads) > 1:
                         ok = False
                         break
+                    # ... and so has what a constructor hands out (`ctx = Ctx() if c is None
+                    # else c` used three times is ONE object)
+                    if len(loads) > 1 and any(
+                            isinstance(x, ast.Call) and isinstance(x.func, ast.Name) and
+                            x.func.id.lstrip("_")[:1].isupper()
+                            for x in ast.walk(env[nm])):
+                        ok = False
+                        break
                 if not ok:
                     continue
                 # names of the definition that are rebound later would change its meaning
@@ -1814,10 +1822,16 @@ def _inline_generators(fn: ast.AST, helpers, cls, counter: List[int],
             if h is None or not getattr(h, "gen", False):
                 i += 1
                 continue
+            structured_gen = None
             if h.gen_returns and not (kind == "yieldfrom" and _is_tail(fn, st)) and not \
                     h.gen_ret_as_break:
-                i += 1
-                continue
+                # guard-style returns (`if not x: return` in front of the loop) structure away
+                structured_gen = _structure_returns(
+                    copy.deepcopy(_strip_doc(h.node.body)))  # type: ignore[attr-defined]
+                if structured_gen is None:
+                    i += 1
+                    continue
+                structured_gen = _returns_to_assign(structured_gen, lambda v: [])
             env = h.bind(gcall, recv)
             if env is None:
                 i += 1
@@ -1881,6 +1895,11 @@ def _inline_generators(fn: ast.AST, helpers, cls, counter: List[int],
                         "list", "tuple", "set", "frozenset") else ast.Call(
                             func=ast.Name(id=ctor, ctx=ast.Load()), args=[], keywords=[])
                 head = [ast.Assign(targets=[ast.Name(id=tgt.id, ctx=ast.Store())], value=init)]
+            if structured_gen is not None:
+                h = copy.copy(h)
+                node2 = copy.copy(h.node)
+                node2.body = structured_gen or [ast.Pass()]  # type: ignore[attr-defined]
+                h.node = node2
             pre, body = _instantiate(h, env, caller_names, counter,
                                      extra.get("force"))  # type: ignore[arg-type]
             if h.gen_returns and h.gen_ret_as_break and not (kind == "yieldfrom"):
